@@ -27,7 +27,7 @@ TInit == Init /\ tid \in 1..Len(Traces) /\ pos = 1 /\ verdict = "none"
 
 \* ri is the 1-based position of the reaction in the system
 Step(e) ==
-    CASE e.ev = "problem" -> Pose(SetOf(e.rs), e.lnK, e.c0)
+    CASE e.ev = "problem" -> Pose(SetOf(e.rs), e.lnK, e.c0, e.sexp)
       [] e.ev = "begin"   -> Begin(e.x, e.given, e.conds, e.maxiter)
       [] e.ev = "cond"    -> /\ e.x = x
                              /\ IF e.kind = "fw" THEN EvalFw(e.ri, e.xd, e.verdict) ELSE EvalBw(e.ri, e.verdict)
@@ -74,6 +74,7 @@ Clause ==
            ELSE IF e.raised THEN "bracket-raises"
            ELSE IF ~NonNeg(e.x) THEN "bracket-negative"
            ELSE IF ~KeepsTotals(e.x) THEN "bracket-totals"
+           ELSE IF ~GenuineAbs(e.x) THEN "bracket-quotient"
            ELSE "bracket-agreement")
       ELSE IF e.ev = "rate" THEN "success-rate"
       ELSE "step:" \o e.ev
